@@ -89,6 +89,11 @@ Theorem C12_reindexed : forall {P} (d : P) q active pb (pieces : list P) rows pb
 Proof. exact @prune_reindexed. Qed.
 Print Assumptions C12_reindexed.
 
+Theorem C12_reported_when_kept : forall {P} (pb : colbounds) (kept : list P),
+  pb <> [] -> kept <> [] -> expose pb kept = pb.
+Proof. exact @expose_some. Qed.
+Print Assumptions C12_reported_when_kept.
+
 (* completeness: a partition holding an element whose bounds overlap the box is
    kept (list-backed kinds, then points).  That an element intersecting the box
    has bounds overlapping it is geometry (C01/C02); that the recorded row is the
